@@ -560,6 +560,17 @@ def _ev(e, env):
             if all(_ev(c, env2) for c in gen.ifs):
                 out[_ev(e.key, env2)] = _ev(e.value, env2)
         return out
+    if isinstance(e, ast.GeneratorExp) and len(e.generators) == 1:
+        # lazy and single-use, as in Python: a second consumer finds it exhausted
+        gen = e.generators[0]
+
+        def lazy(gen=gen, env=env):
+            for item in _ev(gen.iter, env):
+                env2 = dict(env)
+                _store(gen.target, item, env2)
+                if all(_ev(c, env2) for c in gen.ifs):
+                    yield _ev(e.elt, env2)
+        return lazy()
     if isinstance(e, (ast.ListComp, ast.GeneratorExp)) and len(e.generators) == 1:
         gen = e.generators[0]
         out = []
